@@ -134,6 +134,8 @@ type ixDeleter struct {
 type ixRun struct {
 	calls    int
 	callLog  []int // did per call
+	keyLog   []string // key per call
+	outLog   []int    // outcome per call: 0 removed, 1 not found, 2 injected failure, 3 other error
 	faults   map[int]bool
 	midHook  func()
 	midFired bool
@@ -143,14 +145,25 @@ func (d *ixDeleter) Delete(ctx context.Context, key []byte) error {
 	idx := d.run.calls
 	d.run.calls++
 	d.run.callLog = append(d.run.callLog, d.did)
+	d.run.keyLog = append(d.run.keyLog, string(key))
 	if d.run.faults[idx] {
+		d.run.outLog = append(d.run.outLog, 2)
 		if d.run.midHook != nil && !d.run.midFired {
 			d.run.midFired = true
 			d.run.midHook()
 		}
 		return errInjected
 	}
-	return d.inner.Delete(ctx, key)
+	err := d.inner.Delete(ctx, key)
+	switch {
+	case err == nil:
+		d.run.outLog = append(d.run.outLog, 0)
+	case errors.Is(err, cache.ErrNotFound):
+		d.run.outLog = append(d.run.outLog, 1)
+	default:
+		d.run.outLog = append(d.run.outLog, 3)
+	}
+	return err
 }
 
 func keyBytes(k int) []byte {
@@ -194,8 +207,13 @@ func runIxScenario(d *Driver, id string, sc ixScenario, res *Result) *seqFail {
 			d.Ask(fmt.Sprintf("ix addcache %s %d %d", id, n, did))
 		}
 	}
-	// shadow of what was ever labelled and not yet successfully invalidated (monitor's own bookkeeping)
+	// shadow of what was labelled and is still owed a removal (monitor's own bookkeeping): a key leaves a label's set when an
+	// invalidation naming the label returns nil, or when a failing invalidation naming the label completed the key (every deleter
+	// of its name was asked to delete it and none failed: "not yet deleted" in the property's second sentence no longer applies).
+	// maybe holds the keys that left by the second route: an implementation may keep them indexed until the whole call
+	// succeeds, so removing them later is tolerated by the precision monitor, but completeness no longer demands it.
 	shadow := map[int]map[int]map[int]bool{} // name -> label -> keys
+	maybe := map[int]map[int]map[int]bool{}
 	freshKey := 100
 
 	contents := func() map[int]map[int]bool {
@@ -349,11 +367,19 @@ func runIxScenario(d *Driver, id string, sc ixScenario, res *Result) *seqFail {
 			}
 			return false
 		}
+		mayL := func(name, k int) bool {
+			for _, l := range op.Labels {
+				if maybe[name][l][k] {
+					return true
+				}
+			}
+			return false
+		}
 		// monitor: precision (always) and completeness (on success)
 		for did := range before {
 			name := didName[did]
 			for k := range before[did] {
-				if !after[did][k] && !inL(name, k) {
+				if !after[did][k] && !inL(name, k) && !mayL(name, k) {
 					return &seqFail{"monitor", "C15", "inval:precision", fmt.Sprintf("op #%d %s: key k%d in cache c%d carries none of the labels but was removed", i, op, k, did), i, nil}, err != nil
 				}
 			}
@@ -369,6 +395,42 @@ func runIxScenario(d *Driver, id string, sc ixScenario, res *Result) *seqFail {
 			for name := range shadow {
 				for _, l := range op.Labels {
 					delete(shadow[name], l)
+					delete(maybe[name], l)
+				}
+			}
+		} else {
+			// keys this failing call completed: every deleter of the name answered removed / not found for the key
+			for name := range shadow {
+				nd := 0
+				for _, nn := range didName {
+					if nn == name {
+						nd++
+					}
+				}
+				for _, l := range op.Labels {
+					for k := range shadow[name][l] {
+						okDids := map[int]bool{}
+						for ci := logBefore; ci < len(run.callLog); ci++ {
+							if run.keyLog[ci] == string(keyBytes(k)) && didName[run.callLog[ci]] == name && run.outLog[ci] <= 1 {
+								okDids[run.callLog[ci]] = true
+							}
+						}
+						if len(okDids) == nd && nd > 0 {
+							for _, l2 := range op.Labels {
+								if shadow[name][l2][k] {
+									delete(shadow[name][l2], k)
+									if maybe[name] == nil {
+										maybe[name] = map[int]map[int]bool{}
+									}
+									if maybe[name][l2] == nil {
+										maybe[name][l2] = map[int]bool{}
+									}
+									maybe[name][l2][k] = true
+								}
+							}
+							res.count("inval:completed-by-failing-call")
+						}
+					}
 				}
 			}
 		}
